@@ -35,6 +35,14 @@ class _Unser:
 class VDaemon(SV.Daemon):
     vmode = {"mode": "accept"}
     vcalls = 0
+    ann_fails = False
+
+    def annotations(self):
+        if self.ann_fails:
+            # the application's annotations() hook is broken: no reply can be built at all (no verdict on what the peer is told
+            # is demanded then) - but that must never turn a connection into an accepted one
+            raise RuntimeError("annotations hook failed")
+        return {}
 
     def validateHandshake(self, conn, data):
         self.vcalls += 1
@@ -94,7 +102,7 @@ class PreHandshakeWorld(World):
     PROBES = ["m1_not_connect", "m1_unknown_serializer", "m1_unknown_object", "m1_bad_shape", "validator_raised", "validator_odd_return",
               "pipelined_after_fail", "pipelined_after_ok", "connectfail_seen", "connectok_seen", "legit_ok", "m1_truncated",
               "m1_mutated", "multiplex", "thread", "validator_bare_exception", "unregister_raced", "garbage_bad_prefix", "m1_stalled_until_commtimeout",
-              "m1_connect_with_bad_body", "m1_not_connect_body_incomplete"]
+              "m1_connect_with_bad_body", "m1_not_connect_body_incomplete", "annotations_hook_fails", "wall_clock_stepped", "m1_in_slow_pieces"]
     RULE = ("plan = (server type, COMMTIMEOUT, validator behaviour, 1-3 raw peers each with first message spec + 0-3 pipelined message "
             "specs sent in one write or several, optional legitimate client); distinct = distinct interleaving digest; "
             "non-trivial = at least one peer's first message was not a pristine accepted CONNECT")
@@ -152,7 +160,40 @@ class PreHandshakeWorld(World):
                 peers.append({"m1": {"base": "connect", "obj": "tmp", "ser": rng.choice([1, 2, 3, 4]), "arg": 0, "seq": 0, "mut": [], "hand": "valid"},
                               "pipe": [{"base": "invoke", "obj": rng.choice(["tmp", "tok"]), "ser": 2, "arg": rng.randrange(1000), "seq": 1, "mut": []}],
                               "split": True, "gap": rng.choice([0, 0.01, 0.1]), "start": starts[k]})
-        return {"servertype": rng.choice(["thread", "multiplex"]), "commtimeout": rng.choice([0.0, 0.0, 1.5]), "unregister": unreg,
+        extra = {}
+        if rng.random() < 0.12:
+            extra["ann_fails"] = True
+            # peers whose FIRST message has the type of a daemon's own replies, followed by a call
+            for typ in rng.sample([2, 3, 5, 6], rng.randint(1, 2)):
+                peers.append({"m1": {"base": rng.choice(["connect", "invoke", "ping"]), "obj": "tok", "ser": rng.choice([1, 2, 3, 4]), "arg": 0,
+                                     "seq": 0, "hand": "valid",
+                                     # (with an empty body the stream stays aligned for whatever is pipelined behind it)
+                                     "mut": [{"f": "type", "v": typ}] + ([{"f": "payload", "v": "empty"}] if rng.random() < 0.7 else [])},
+                              "pipe": [{"base": "invoke", "obj": "tok", "ser": 2, "arg": rng.randrange(1000), "seq": 1, "mut": []}],
+                              "split": rng.random() < 0.5, "gap": rng.choice([0, 0.01]), "start": rng.choice([0, 0.01, 0.2])})
+        for p_ in peers:
+            m_ = p_["m1"]
+            if m_["base"] == "connect" and not m_.get("mut") and rng.random() < (0.25 if m_.get("trunc") is None else 0.6):
+                p_["pieces"] = sorted(round(rng.random(), 3) for _ in range(rng.randint(1, 3)))
+                p_["piece_gap"] = rng.choice([0.2, 0.3, 0.4])
+        if rng.random() < 0.2:
+            # the wall clock is stepped forward while peers are connecting (NTP step, VM resume)
+            extra["clock_jumps"] = [[rng.choice([0.0, 0.001, 0.01, 0.2, 0.5, 1.0]), rng.choice([5.0, 3600.0, 86400.0])]]
+            if rng.random() < 0.6:
+                # focus: the step lands between two pieces of a slow first message (complete or not) under a COMMTIMEOUT
+                s0 = rng.choice([0.0, 0.05, 0.2])
+                gap = rng.choice([0.2, 0.3])
+                npieces = rng.randint(1, 3)
+                m = {"base": "connect", "obj": "tok", "ser": rng.choice([1, 2, 3, 4]), "arg": 0, "seq": 0, "mut": [], "hand": "valid"}
+                if rng.random() < 0.6:
+                    m["trunc"] = round(0.2 + 0.7 * rng.random(), 3)
+                peers.append({"m1": m, "pipe": [], "split": True, "gap": 0, "start": s0,
+                              "pieces": sorted(round(0.1 + 0.8 * rng.random(), 3) for _ in range(npieces)), "piece_gap": gap})
+                extra["clock_jumps"] = [[round(s0 + gap * rng.randint(0, npieces - 1) + gap / 2, 3), rng.choice([5.0, 3600.0])]]
+                extra["commtimeout_focus"] = 1.5
+        cfocus = extra.pop("commtimeout_focus", None)
+        return {**extra, "servertype": rng.choice(["thread", "multiplex"]),
+                "commtimeout": cfocus if (cfocus and rng.random() < 0.7) else rng.choice([0.0, 0.0, 1.5]), "unregister": unreg,
                 "p_line": rng.choice([0.05, 0.15, 0.3]) if unreg else 0.0, "p_stall": rng.choice([0.0, 0.05, 0.1]) if unreg else 0.0,
                 "validator": validator, "peers": peers, "legit": rng.random() < 0.6, "serializer": rng.choice(SERIALIZERS),
                 "net": {"p_frag": rng.choice([0.0, 0.3, 0.8]), "shuffle_select": rng.random() < 0.5},
@@ -183,6 +224,11 @@ class PreHandshakeWorld(World):
         config.POLLTIMEOUT = 2.0
         daemon = VDaemon(host="127.0.0.1", port=0, interface=LoggingDaemonObject)
         daemon.vmode = plan["validator"]
+        daemon.ann_fails = bool(plan.get("ann_fails"))
+        if daemon.ann_fails:
+            ctx.probe("annotations_hook_fails")
+        if plan.get("clock_jumps"):
+            ctx.probe("wall_clock_stepped")
         daemon._dlog = []
         daemon._sched = sched
         victim = Victim(sched)
@@ -212,7 +258,21 @@ class PreHandshakeWorld(World):
             r["m1_len"] = len(m1)
             r["total_len"] = len(m1) + sum(len(x) for x in rest)
             try:
-                if spec["split"]:
+                if spec.get("pieces") and m1:
+                    # a slow but complete first message: a few bytes now, the rest in pieces with pauses (each pause well below
+                    # any COMMTIMEOUT)
+                    ctx.probe("m1_in_slow_pieces")
+                    cuts = sorted({max(1, min(len(m1) - 1, int(f * len(m1)))) for f in spec["pieces"]})
+                    prev = 0
+                    for c in cuts + [len(m1)]:
+                        sk.sendall(m1[prev:c])
+                        prev = c
+                        if c < len(m1):
+                            sched.sleep(spec.get("piece_gap", 0.3))
+                    for x in rest:
+                        if x:
+                            sk.sendall(x)
+                elif spec["split"]:
                     if m1:
                         sk.sendall(m1)
                     for x in rest:
@@ -314,6 +374,8 @@ class PreHandshakeWorld(World):
             rec = r["received"]
             first = rec[0] if rec else None
             klass = self._classify(m1, vm, pristine)
+            if plan.get("ann_fails"):
+                klass = "unknown"
             if klass == "trunc":
                 # an incomplete first message from a peer that stays connected: with a server COMMTIMEOUT the daemon itself gives
                 # up on it - and has to say so (CONNECTFAIL with the reason); without one it legitimately waits for the peer
@@ -377,7 +439,7 @@ class PreHandshakeWorld(World):
                 ctx.probe("validator_odd_return")
         ctx.nontrivial = nontrivial
         # clause 4: the legitimate client
-        if plan["legit"]:
+        if plan["legit"] and not plan.get("ann_fails"):
             if vm["mode"] == "raise" or (vm["mode"] == "return" and vm["ret"] == "unserialisable"):
                 if "error" not in legit and vm["mode"] == "raise":
                     ctx.violate("handshake-accepted-wrongly", "legit", "validator raises but the legitimate client was served: %r" % (legit,))
